@@ -727,8 +727,13 @@ def rule_loops(ctx):
                 S = _blocks_calling(ctx, b, body, lambda tg, ext, ps, t: any(
                     ('write', 'common::deque::Deque', 'head') in eff.transitive(x) for x in tg))
             elif role == 'advance':
+                # the cursor is advanced by a direct call of the node's successor accessor, or by next() of an
+                # iter::successors(..) whose successor closure is that accessor
+                adv_clo = {c for c in prog.closures_of.get(nid, []) if ('read', 'common::deque::DeqNode', 'next') in eff.transitive(c)}
+                succ_iter = any(ext_ == 'std::iter::successors' and set(ps_) & adv_clo for _bi, t_ in b.calls() for _tg, ext_, ps_ in [prog.call_targets(b, t_)])
                 S = _blocks_calling(ctx, b, body, lambda tg, ext, ps, t: any(
-                    ('read', 'common::deque::DeqNode', 'next') in eff.direct.get(x, ()) for x in tg))
+                    ('read', 'common::deque::DeqNode', 'next') in eff.direct.get(x, ()) for x in tg) or
+                    (succ_iter and ext == '<std::iter::Successors as std::iter::Iterator>::next'))
                 # the advanced cursor must be the value the loop consumes (assigned to the scanned local)
             elif role == 'housekeeping':
                 def hk(tg, ext, ps, t):
